@@ -6,16 +6,22 @@ spec — coherent or not, no `Coherent` hypothesis anywhere — every nesting de
 byte string. The model yields `panic` exactly where the Go runtime would (slice out of
 range, index into an empty slice), so "never panics" is an ordinary theorem about it.
 
-Two places need an explicit hypothesis, and each is paired with a proved witness and a
-finding about the real code (KNOWN_FINDINGS.txt, KF5 and KF6):
+No theorem about panics needs a hypothesis on the spec. The two places that did (findings
+KF5 and KF6, repaired in /repo and mirrored in the model) now return errors:
 
-* a bitmap whose *spec* declares a non-`Fixed` prefixer can decode a zero-length block and
-  index it (`bitmap_unpack_panic_iff` characterises this exactly); the §2.1 grammar only
-  allows `Fixed` prefixers on bitmaps — hypothesis `bitmapsFixed`;
-* a tagged composite with `Tag.Length = 0` and a non-BER tag decoder reads no tag bytes,
-  so an iteration of the TLV loop can make no progress; the model then runs out of fuel
-  (`.err []`) where the Go loop spins forever — hypothesis `enc = berTag ∨ 1 ≤ t.len` of
-  the fuel lemmas (not of the no-panic theorems, which hold regardless).
+* a bitmap whose spec declares a non-`Fixed` prefixer can decode a zero-length block: the
+  empty block is rejected before `decoded[0]` is looked at (`bitmap_unpack_zero_block_err`);
+* a tagged composite with `Tag.Length = 0`, a non-BER tag decoder and a zero-width subfield
+  keyed `""` reads neither tag nor value bytes: the element is rejected ("no data
+  consumed"), so every continuing iteration of the TLV loop consumes at least one byte and
+  the fuel-indexed model loop is the unbounded Go loop (`tlvLoop_fuel_enough`).
+
+The fuel lemma of the TLV loop keeps one side condition that is about the model's `Pref`
+type only: a *variable* unknown-tag prefixer with digit count 0 (`Pref.var f 0`) reads no
+bytes and announces length 0. No such prefixer is exported by package `prefix` (digit
+counts are 1..6, `C06.exported_var_digits`) or constructible outside it; the condition is
+vacuous for tag length ≥ 1 and for BER tags, and `tlvLoop_fuel_enough_exported` discharges
+it for every spec written with the exported prefixers.
 
 Time and memory are proved as iteration counts and requested sizes of the model (ghost
 functions), not as machine time or allocator behaviour.
@@ -46,30 +52,19 @@ theorem decodeLength_no_panic (p : Pref) (maxLen : Nat) (data : Bytes) :
 
 /-! ## 2. Bitmap -/
 
-/-- **Exact characterisation of the bitmap panic.** `Bitmap.Unpack` panics iff the length
-prefix of the bitmap spec yields block length 0 on this input and the encoder is not the
-BER tag decoder (every other decoder then returns an empty block, and `decoded[0]` is out
-of range). `blockLenOf` never returns 0, so a `Fixed` prefixer never yields 0. -/
-theorem bitmap_unpack_panic_iff (enc : Enc) (pref : Pref) (bm : Bitmap) (data : Bytes) :
-    Bitmap.unpack enc pref bm data = .panic ↔
-      enc ≠ .berTag ∧ ∃ r, Pref.decodeLength pref bm.blockLen data = .ok (0, r) :=
-  Bitmap.unpack_panic_iff enc pref bm data
+/-- **The bitmap never panics**: every encoder, every prefixer (`Fixed` or not), every
+block length (spec length 0 = default 8), both expansion modes, every input. -/
+theorem bitmap_unpack_no_panic (enc : Enc) (pref : Pref) (bm : Bitmap) (data : Bytes) :
+    Bitmap.unpack enc pref bm data ≠ .panic :=
+  Bitmap.unpack_ne_panic enc pref bm data
 
-/-- **No bitmap panic** for every block length (spec length 0 = default 8), every encoder,
-every `Fixed` prefix family, both expansion modes, every input. -/
-theorem bitmap_unpack_no_panic (enc : Enc) (fam : Fam) (specLen : Nat) (auto : Bool) (data : Bytes) :
-    Bitmap.unpack enc (.fixed fam) (Bitmap.reset specLen auto) data ≠ .panic :=
-  Bitmap.unpack_ne_panic_fixed enc fam _ data (Bitmap.blockLenOf_pos specLen)
-
-/-- the full-strength statement (any prefixer on the bitmap spec) … -/
-def BitmapUnpackNoPanicStatement : Prop :=
-  ∀ (enc : Enc) (pref : Pref) (specLen : Nat) (auto : Bool) (data : Bytes),
-    Bitmap.unpack enc pref (Bitmap.reset specLen auto) data ≠ .panic
-
-/-- … is false: with the `None` prefixer and no bytes left the block length is 0 (finding KF6) -/
-theorem bitmap_unpack_no_panic_witness : ¬ BitmapUnpackNoPanicStatement := by
-  intro h
-  exact h .binary .none 8 true [] ((bitmap_unpack_panic_iff _ _ _ _).mpr ⟨by decide, 0, rfl⟩)
+/-- the input class of the repaired finding KF6 — the bitmap spec's prefixer yields block
+length 0 and the encoder (any but the BER tag decoder) decodes an empty block — is an
+error, in both expansion modes -/
+theorem bitmap_unpack_zero_block_err (enc : Enc) (pref : Pref) (bm : Bitmap) (data : Bytes) (r : Nat)
+    (he : enc ≠ .berTag) (hdl : Pref.decodeLength pref bm.blockLen data = .ok (0, r)) :
+    Bitmap.unpack enc pref bm data = .err :=
+  Bitmap.unpack_zero_block_err enc pref bm data r he hdl
 
 /-- a successful bitmap unpack stayed inside its input; the bitmap has between 8 and
 `16·read` bits -/
@@ -87,42 +82,18 @@ theorem field_unpack_read_le (f : Field) (data : Bytes) (v : Value) (r : Nat)
 
 /-- **Primitive fields never panic**: every kind × encoder × prefixer × padder × packer -/
 theorem prim_unpack_no_panic (s : PrimSpec) (data : Bytes) : (Field.prim s).unpack data ≠ .panic :=
-  Field.unpack_ne_panic (.prim s) rfl data
+  Field.unpack_ne_panic (.prim s) data
 
-/-- full-strength statement: no hypothesis on the spec at all -/
-def FieldUnpackNoPanicStatement : Prop := ∀ (f : Field) (data : Bytes), f.unpack data ≠ .panic
-
-/-- **Field Unpack never panics** — every spec of the §2.1 grammar (coherent or not: any
-encoder with any prefixer, `None` prefixes anywhere, any tag length, any nesting depth,
-unknown-tag skipping with any prefixer), every input. The one hypothesis is the grammar's
-own restriction that bitmaps are declared with `Fixed` prefixers. Structural induction
-over the spec tree through `tlvLoop` / `bitmapScan` / `unpackPositional` / `unpackTagged`. -/
-theorem field_unpack_no_panic_partial (f : Field) (hg : f.bitmapsFixed = true) (data : Bytes) :
-    f.unpack data ≠ .panic :=
-  Field.unpack_ne_panic f hg data
-
-def witnessBitmapComp : Field :=
-  .comp { len := 0, pref := .none,
-          mode := .bitmapped { specLen := 1, enc := .binary, pref := .none, auto := false } } []
-
-/-- without the grammar restriction the model panics (composite bitmap with the `None`
-prefixer, empty body) -/
-theorem field_unpack_no_panic_witness : ¬ FieldUnpackNoPanicStatement := by
-  intro h
-  apply h witnessBitmapComp []
-  have hb : Bitmap.unpack .binary .none (Bitmap.reset 1 false) [] = .panic :=
-    (bitmap_unpack_panic_iff _ _ _ _).mpr ⟨by decide, 0, rfl⟩
-  simp [witnessBitmapComp, Field.unpack, Pref.decodeLength, hb]
-
-/-- coherent specs satisfy the hypothesis -/
-theorem field_unpack_no_panic_coherent (f : Field) (lp : Bool) (hc : f.coherent lp = true) (data : Bytes) :
-    f.unpack data ≠ .panic :=
-  field_unpack_no_panic_partial f (Field.coherent_bitmapsFixed f lp hc) data
+/-- **Field Unpack never panics** — every spec (coherent or not: any encoder with any
+prefixer, `None` prefixes anywhere, any tag length, bitmaps with any prefixer, unknown-tag
+skipping with any prefixer), every nesting depth, every input. Structural induction over
+the spec tree through `tlvLoop` / `bitmapScan` / `unpackPositional` / `unpackTagged`. -/
+theorem field_unpack_no_panic (f : Field) (data : Bytes) : f.unpack data ≠ .panic :=
+  Field.unpack_ne_panic f data
 
 /-- **SetBytes never panics** (primitive: parse the raw value; composite: unpack the
 subfields from the whole input) -/
-theorem field_setBytes_no_panic (f : Field) (hg : f.bitmapsFixed = true) (data : Bytes) :
-    f.setBytes data ≠ .panic := by
+theorem field_setBytes_no_panic (f : Field) (data : Bytes) : f.setBytes data ≠ .panic := by
   cases f with
   | prim s =>
     simp only [Field.setBytes]
@@ -131,47 +102,20 @@ theorem field_setBytes_no_panic (f : Field) (hg : f.bitmapsFixed = true) (data :
     · simp
     · rename_i h; exact absurd h (PrimSpec.setBytes_ne_panic s data)
   | comp s subs =>
-    simp only [Field.bitmapsFixed, Bool.and_eq_true] at hg
-    have hsub : ∀ p ∈ subs, ∀ d, p.2.unpack d ≠ .panic :=
-      fun p hp => Field.unpack_ne_panic p.2 (Field.subsBitmapsFixed_mem subs hg.2 p hp)
     simp only [Field.setBytes]
     split
     · simp
     · simp
-    · rename_i h; exact absurd h (compBody_ne_panic s.mode subs data false hg.1 hsub)
+    · rename_i h
+      exact absurd h (compBody_ne_panic s.mode subs data false (fun p _ => Field.unpack_ne_panic p.2))
 
 /-! ## 4. Messages -/
 
-def MsgUnpackNoPanicStatement : Prop := ∀ (spec : MsgSpec) (src : Bytes), spec.unpack src ≠ .panic
-
-/-- **Message Unpack never panics** — every message spec whose bitmaps use `Fixed`
-prefixers (no coherence: any MTI spec, any ids, elements at continuation positions, any
-block length, both expansion modes), every input. -/
-theorem msg_unpack_no_panic_partial (spec : MsgSpec) (hg : spec.bitmapsFixed = true) (src : Bytes) :
-    spec.unpack src ≠ .panic :=
-  MsgSpec.unpack_ne_panic spec hg src
-
-def witnessMsgSpec : MsgSpec :=
-  { mti := { kind := .string, len := 4, enc := .ascii, pref := .fixed .ascii, pad := .nil },
-    bitmap := { specLen := 8, enc := .binary, pref := .none, auto := true },
-    fields := [] }
-
-/-- a message bitmap declared with the `None` prefixer: the four MTI bytes and nothing
-else make the model (and the Go code: finding KF6) index an empty block -/
-theorem msg_unpack_no_panic_witness : ¬ MsgUnpackNoPanicStatement := by
-  intro h
-  apply h witnessMsgSpec [0x30, 0x31, 0x30, 0x30]
-  have hb : Bitmap.unpack .binary .none (Bitmap.reset 8 true) [] = .panic :=
-    (bitmap_unpack_panic_iff _ _ _ _).mpr ⟨by decide, 0, rfl⟩
-  have hm : witnessMsgSpec.mti.unpack [0x30, 0x31, 0x30, 0x30] = .ok (.str [0x30, 0x31, 0x30, 0x30], 4) := by
-    rfl
-  unfold MsgSpec.unpack
-  rw [hm]
-  simp [witnessMsgSpec, hb]
-
-theorem msg_unpack_no_panic_coherent (spec : MsgSpec) (hc : spec.coherent = true) (src : Bytes) :
-    spec.unpack src ≠ .panic :=
-  msg_unpack_no_panic_partial spec (MsgSpec.coherent_bitmapsFixed spec hc) src
+/-- **Message Unpack never panics** — every message spec (no coherence: any MTI spec, any
+ids, elements at continuation positions, any block length, any bitmap prefixer, both
+expansion modes), every input. -/
+theorem msg_unpack_no_panic (spec : MsgSpec) (src : Bytes) : spec.unpack src ≠ .panic :=
+  MsgSpec.unpack_ne_panic spec src
 
 /-- **Network header reads never panic** (all four headers, every fragmentation of the
 stream): `C16.read_ne_panic` -/
@@ -192,25 +136,36 @@ theorem bitmap_unpackLoop_fuel_enough (enc : Enc) (minLen : Nat) (auto : Bool) (
       Bitmap.unpackLoop enc minLen auto fuel rest acc read :=
   Bitmap.unpackLoop_fuel_mono enc minLen auto fuel rest acc read k hf
 
-/-- full-strength fuel statement for the TLV loop: no hypothesis on the tag spec -/
-def TlvLoopFuelStatement : Prop :=
-  ∀ (t : TagSpec) (enc : Enc) (isBer : Bool) (known : Tag → Bool)
-    (dispatch : Tag → Bytes → UR (Value × Nat)) (fuel : Nat) (data : Bytes) (offset : Nat)
-    (acc : List (Tag × Value)), data.length - offset < fuel →
-    tlvLoop t enc isBer known dispatch fuel data offset acc ≠ .err []
-
-/-- **TLV loop: fuel suffices** when a tag occupies at least one byte (tag length ≥ 1, or
-BER tags). `.err []` is the loop's fuel-exhausted value — every other error path carries
-a non-empty field path. With fuel `body.length + 1` (what `Field.unpack` passes) the loop
-makes at most `body.length + 1` iterations for any dispatcher. -/
-theorem tlvLoop_fuel_enough_partial (t : TagSpec) (enc : Enc) (isBer : Bool) (known : Tag → Bool)
-    (dispatch : Tag → Bytes → UR (Value × Nat)) (hprog : enc = .berTag ∨ 1 ≤ t.len)
+/-- **TLV loop: fuel suffices.** `.err []` is the loop's fuel-exhausted value — every other
+error path carries a non-empty field path. With fuel `data.length - offset + 1` (what
+`Field.unpack` passes: `body.length + 1` from offset 0) it is never returned and more fuel
+changes nothing, for any dispatcher: every continuing iteration consumes ≥ 1 byte (a known
+element that consumed nothing is rejected; a skipped element consumes its length prefix
+or its value). `t.skipDigitsPos` only excludes the non-exported `Pref.var f 0` as
+unknown-tag prefixer, and only matters when `Tag.Length = 0` with a non-BER decoder. -/
+theorem tlvLoop_fuel_enough (t : TagSpec) (enc : Enc) (isBer : Bool) (known : Tag → Bool)
+    (dispatch : Tag → Bytes → UR (Value × Nat)) (hp : enc = .berTag ∨ 1 ≤ t.len ∨ t.skipDigitsPos)
     (fuel : Nat) (data : Bytes) (offset : Nat) (acc : List (Tag × Value)) (hf : data.length - offset < fuel) :
     tlvLoop t enc isBer known dispatch fuel data offset acc ≠ .err [] ∧
     ∀ k, tlvLoop t enc isBer known dispatch (fuel + k) data offset acc =
       tlvLoop t enc isBer known dispatch fuel data offset acc :=
-  ⟨tlvLoop_fuel_enough t enc isBer known dispatch hprog fuel data offset acc hf,
-   fun k => tlvLoop_fuel_mono t enc isBer known dispatch hprog fuel data offset acc k hf⟩
+  ⟨Iso8583.tlvLoop_fuel_enough t enc isBer known dispatch hp fuel data offset acc hf,
+   fun k => tlvLoop_fuel_mono t enc isBer known dispatch hp fuel data offset acc k hf⟩
+
+/-- the same for every tag spec that can be written in Go: any tag length (0 included),
+any tag decoder, and — if unknown tags are skipped with a prefixer — one of the exported
+prefixers (the regenerated table of C06) -/
+theorem tlvLoop_fuel_enough_exported (t : TagSpec) (enc : Enc) (isBer : Bool) (known : Tag → Bool)
+    (dispatch : Tag → Bytes → UR (Value × Nat)) (hx : ∀ p, t.prefUnknown = some p → C06.Exported p)
+    (fuel : Nat) (data : Bytes) (offset : Nat) (acc : List (Tag × Value)) (hf : data.length - offset < fuel) :
+    tlvLoop t enc isBer known dispatch fuel data offset acc ≠ .err [] ∧
+    ∀ k, tlvLoop t enc isBer known dispatch (fuel + k) data offset acc =
+      tlvLoop t enc isBer known dispatch fuel data offset acc := by
+  apply tlvLoop_fuel_enough t enc isBer known dispatch _ fuel data offset acc hf
+  refine Or.inr (Or.inr ?_)
+  intro f hf0
+  have := (C06.exported_var_digits f 0 (hx _ hf0)).1
+  omega
 
 def zeroTagSpec : TagSpec :=
   { len := 0, enc := some .ascii, pad := .nil, sort := .strings, skipUnknown := false, prefUnknown := Option.none }
@@ -218,26 +173,29 @@ def zeroTagSpec : TagSpec :=
 def zeroWidthSubs : List (Tag × Field) :=
   [([], .prim { kind := .string, len := 0, enc := .ascii, pref := .fixed .ascii, pad := .nil })]
 
-/-- `Tag.Length = 0` with the ASCII tag decoder and a zero-width subfield keyed `""`: an
-iteration reads no tag byte and no value byte. Whatever the fuel, the model's loop ends by
-exhausting it — the Go `for offset < len(data)` loop never ends (finding KF5). -/
-theorem tlvLoop_zero_progress (fuel : Nat) (acc : List (Tag × Value)) :
+/-- the input class of the repaired finding KF5 — `Tag.Length = 0`, the ASCII tag decoder
+and a zero-width subfield keyed `""` — is rejected at the first element, whatever the
+fuel: "no data consumed", attributed to the tag `""` -/
+theorem tlvLoop_zero_progress_err (fuel : Nat) (acc : List (Tag × Value)) :
     tlvLoop zeroTagSpec .ascii false (lookupField zeroWidthSubs)
-      (fun tag d => unpackTagged zeroWidthSubs tag d) fuel [0x31] 0 acc = .err [] := by
-  induction fuel generalizing acc with
+      (fun tag d => unpackTagged zeroWidthSubs tag d) (fuel + 1) [0x31] 0 acc = .err [[]] := rfl
+
+def digits0TagSpec : TagSpec :=
+  { len := 0, enc := some .ascii, pad := .nil, sort := .strings, skipUnknown := true,
+    prefUnknown := some (.var .binary 0) }
+
+/-- why `skipDigitsPos` is there: in the *model* a variable prefixer with digit count 0
+reads nothing and announces 0, so skipping the unknown tag `""` makes no progress and the
+loop ends by exhausting any fuel. `Pref.var .binary 0` is not a prefixer of package
+`prefix` (digit counts 1..6), so no Go spec reaches this. -/
+theorem tlvLoop_digits0_exhausts_fuel (fuel : Nat) (acc : List (Tag × Value)) :
+    tlvLoop digits0TagSpec .ascii false (fun _ => false) (fun _ _ => .err []) fuel [0x31] 0 acc = .err [] := by
+  induction fuel with
   | zero => rfl
   | succ fuel ih =>
-    have step : tlvLoop zeroTagSpec .ascii false (lookupField zeroWidthSubs)
-        (fun tag d => unpackTagged zeroWidthSubs tag d) (fuel + 1) [0x31] 0 acc =
-      tlvLoop zeroTagSpec .ascii false (lookupField zeroWidthSubs)
-        (fun tag d => unpackTagged zeroWidthSubs tag d) fuel [0x31] 0 (insertKV [] (.str []) acc) := rfl
-    rw [step]
-    exact ih _
-
-theorem tlvLoop_fuel_witness : ¬ TlvLoopFuelStatement := by
-  intro h
-  exact h zeroTagSpec .ascii false (lookupField zeroWidthSubs)
-    (fun tag d => unpackTagged zeroWidthSubs tag d) 2 [0x31] 0 [] (by decide) (tlvLoop_zero_progress 2 [])
+    have step : tlvLoop digits0TagSpec .ascii false (fun _ => false) (fun _ _ => .err []) (fuel + 1) [0x31] 0 acc =
+        tlvLoop digits0TagSpec .ascii false (fun _ => false) (fun _ _ => .err []) fuel [0x31] 0 acc := rfl
+    rw [step]; exact ih
 
 /-- **Message scan: iteration count.** `Message.unpack` scans ids `2 … bm.len`, i.e.
 `bm.len − 1` iterations (the fuel argument of `scan`, consumed one per iteration), and
@@ -267,11 +225,10 @@ prefix decode, (c) a primitive field's Unpack, (d) a bitmap's Unpack is at most
 `2·(bytes available to that call) + 127` — never a length merely announced by the input
 (the `valueLength` / `minLen` a prefix returned reaches a `make` only after it has been
 compared with the bytes that are there). 127 is the BER long-form length buffer, the only
-allocation made before its bytes are known to be present; the Binary decoder copies the
-whole remaining input (≤ the bytes available, whatever length was asked for). The bound is
-per request: it does not limit the *sum* over the iterations of a TLV loop, and with the
-Binary decoder's whole-input copy that sum is quadratic in the real code (finding KF7,
-found by the oracle's long-TLV probe, not by these theorems). The composite loops allocate
+allocation made before its bytes are known to be present. The bound is per request: it
+does not by itself limit the *sum* over the iterations of a TLV loop (the repaired finding
+KF7 — the Binary decoder used to copy the whole remaining input per element, quadratic in
+total — was found by the oracle's long-TLV probe, not by these theorems). The composite loops allocate
 through these calls on sub-slices of their own input (`field_unpack_read_le`), so the
 same per-call bound holds at every nesting level; a single log for a whole nested unpack
 is not defined here. -/
@@ -299,28 +256,52 @@ def demoTlv : Field :=
                   [([49], .prim { kind := .string, len := 2, enc := .ascii, pref := .fixed .ascii, pad := .nil })]),
      ([57, 70, 48, 50], .prim { kind := .binary, len := 6, enc := .binary, pref := .berTLV, pad := .nil })]
 
--- a nested spec (BER-TLV composite holding a bitmapped composite) meets the hypothesis …
-example : demoTlv.bitmapsFixed = true := by decide
--- … is coherent too …
+def witnessBitmapComp : Field :=
+  .comp { len := 0, pref := .none,
+          mode := .bitmapped { specLen := 1, enc := .binary, pref := .none, auto := false } } []
+
+def witnessMsgSpec : MsgSpec :=
+  { mti := { kind := .string, len := 4, enc := .ascii, pref := .fixed .ascii, pad := .nil },
+    bitmap := { specLen := 8, enc := .binary, pref := .none, auto := true },
+    fields := [] }
+
+def zeroProgressComp : Field :=
+  .comp { len := 3, pref := .fixed .ascii, mode := .tagged zeroTagSpec } zeroWidthSubs
+
+-- the theorems apply to coherent specs (a BER-TLV composite holding a bitmapped composite) …
 example : demoTlv.coherent false = true := by decide +kernel
--- … and an incoherent one (None prefix in the middle, tag length 0) meets it as well
-example : (Field.comp { len := 3, pref := .none, mode := .tagged zeroTagSpec } zeroWidthSubs).bitmapsFixed = true := by
-  decide
--- the bitmap characterisation is not vacuous in either direction
-example : Bitmap.unpack .binary .berTLV (Bitmap.reset 8 true) [0x00] = .panic :=
-  (bitmap_unpack_panic_iff _ _ _ _).mpr ⟨by decide, 1, by decide⟩
+-- … and the former witnesses of KF6 / KF5 now return errors: a bitmap with the `None`
+-- prefixer and no bytes left (both expansion modes; BER prefix announcing 0), the composite
+-- and the message built on it, and the zero-progress TLV composite
+example : Bitmap.unpack .binary .none (Bitmap.reset 8 true) [] = .err :=
+  bitmap_unpack_zero_block_err _ _ _ _ 0 (by decide) rfl
+example : Bitmap.unpack .binary .none (Bitmap.reset 8 false) [] = .err :=
+  bitmap_unpack_zero_block_err _ _ _ _ 0 (by decide) rfl
+example : Bitmap.unpack .binary .berTLV (Bitmap.reset 8 true) [0x00] = .err :=
+  bitmap_unpack_zero_block_err _ _ _ _ 1 (by decide) (by decide)
+example : witnessBitmapComp.unpack [] = .err [[]] := by
+  have hb : Bitmap.unpack .binary .none (Bitmap.reset 1 false) [] = .err :=
+    bitmap_unpack_zero_block_err _ _ _ _ 0 (by decide) rfl
+  simp [witnessBitmapComp, Field.unpack, Pref.decodeLength, hb]
+example : witnessMsgSpec.unpack [0x30, 0x31, 0x30, 0x30] = .err [natToDec 1] := by
+  have hb : Bitmap.unpack .binary .none (Bitmap.reset 8 true) [] = .err :=
+    bitmap_unpack_zero_block_err _ _ _ _ 0 (by decide) rfl
+  have hm : witnessMsgSpec.mti.unpack [0x30, 0x31, 0x30, 0x30] = .ok (.str [0x30, 0x31, 0x30, 0x30], 4) := by
+    rfl
+  unfold MsgSpec.unpack
+  rw [hm]
+  simp [witnessMsgSpec, hb]
+example : zeroProgressComp.unpack [0x31, 0x32, 0x33] = .err [[]] := rfl
+-- a bitmap that does decode
 example : Bitmap.unpack .binary (.fixed .binary) (Bitmap.reset 1 true) [0x80, 0x01, 0xFF]
     = .ok ({ data := [0x80, 0x01], blockLen := 1, auto := true }, 2) := by decide
--- a message spec meeting the hypothesis, coherent, and one that is not coherent but meets it
-example : ({ witnessMsgSpec with bitmap := { specLen := 8, enc := .binary, pref := .fixed .binary, auto := true } }
-    : MsgSpec).bitmapsFixed = true := by decide
-example : ({ witnessMsgSpec with bitmap := { specLen := 0, enc := .lbcd, pref := .fixed .hex, auto := true },
-                                 fields := [(65, .prim { kind := .numeric, len := 0, enc := .berTag, pref := .none, pad := .nil })] }
-    : MsgSpec).bitmapsFixed = true := by decide
+-- hypotheses of the fuel lemma: satisfiable with tag length 0 and with an exported prefixer
+example : zeroTagSpec.skipDigitsPos := by intro f h; cases h
+example : C06.Exported (.var .ascii 2) := by unfold C06.Exported; decide +kernel
 -- allocation log of an adversarial BER length (0x84 FF FF FF FF = 4 GiB announced, 2 value bytes present):
--- the 4-byte length buffer, then the Binary decoder's copy of the 2 bytes that are there
+-- the 4-byte length buffer and nothing else (the Binary decoder checks the length before it copies)
 example : PrimSpec.unpackAllocs { kind := .binary, len := 0, enc := .binary, pref := .berTLV, pad := .nil }
-    [0x84, 0xFF, 0xFF, 0xFF, 0xFF, 0x01, 0x02] = [4, 2] := by decide
+    [0x84, 0xFF, 0xFF, 0xFF, 0xFF, 0x01, 0x02] = [4] := by decide
 example : Enc.decodeAllocs .bcd [0x12, 0x34] 4 = [4] := by decide
 example : Enc.decodeAllocs .bcd [0x12, 0x34] 1000000 = [] := by decide
 
